@@ -1271,6 +1271,42 @@ theorem eff_replaceS {s s' : St} (h : Inv s) {v wn wr_ tmp : Nat} (hv : v < s.n)
         · subst hut; rw [E6.self, S.abs, h0]
         · rw [E6.other u hut, E5.other u hu, E4.other u hut, E3.other u hut]
 
+/-- taking the C string view of `wn` keeps `v` terminated (they may be the same object) -/
+theorem term_after_cview {s1 s2 : St} (h1 : Inv s1) {v wn : Nat} (hwn : wn < s1.n)
+    (t1 : termByte s1 v = some (some 0)) (h2 : cview s1 wn = some s2) : termByte s2 v = some (some 0) := by
+  obtain ⟨E2, t2⟩ := eff_cview h1 hwn h2
+  have S2 := E2.silent
+  by_cases cvw : v = wn
+  · subst cvw; exact t2
+  · cases hloc : s2.vars v with
+    | empty => simp [termByte, desc_empty hloc, memOf]
+    | blk b =>
+      obtain ⟨blk, hbk⟩ := S2.inv.live v b hloc
+      simp only [termByte, desc_blk hloc hbk, memOf, hbk, Option.bind_eq_bind, Option.bind_some, Option.map_some,
+        Nat.zero_add]
+      exact (S2.inv.wf b blk hbk).2.2
+    | foreign r off len =>
+      have hv1 : s1.vars v = .foreign r off len := by
+        obtain ⟨d1, hd1⟩ := desc_some h1 wn
+        simp only [cview, hd1, Option.bind_eq_bind, Option.bind_some, Option.bind_eq_some_iff] at h2
+        obtain ⟨t, _, h2⟩ := h2
+        by_cases t0 : t = 0
+        · simp only [t0, ne_eq, not_true_eq_false, if_false, Option.pure_def, Option.some.injEq] at h2
+          subst h2; exact hloc
+        · simp only [ne_eq, t0, not_false_eq_true, if_true, detach, hd1, Option.bind_eq_bind, Option.bind_some] at h2
+          split at h2
+          · simp only [Option.bind_eq_some_iff] at h2
+            obtain ⟨_, _, _, _, h2⟩ := h2
+            rw [← (writeOwn_fields h2).2.2]; exact hloc
+          · simp only [Option.bind_eq_some_iff, Option.pure_def, Option.some.injEq] at h2
+            obtain ⟨_, _, _, _, _, _, rfl⟩ := h2
+            simp only [allocSet, setEmpty, setVar, upd_other _ _ _ _ cvw, (release_fields s1 wn).2.2.2] at hloc
+            exact hloc
+      have := t1
+      simp only [termByte, desc_foreign hv1, memOf, Option.bind_eq_bind, Option.bind_some] at this
+      simp only [termByte, desc_foreign hloc, memOf, Option.bind_eq_bind, Option.bind_some, S2.regs]
+      exact this
+
 theorem replaceAux_none {n : List Nat} {r : List Byte} {h : List Nat} (e : strstrL h n = none) (fuel : Nat) :
     Spec.replaceAux n r fuel h = h.map some := by
   cases fuel with
